@@ -8,9 +8,11 @@ from harness import gen
 from harness.framework import Suite
 
 PID = "C19"
-READY = False
 LEAN_MODS = ["SwcVerif.Props.C19"]
-THEOREMS = []
+THEOREMS = [
+    "C19.getIdx_spec", "C19.step_len", "C19.load_at_most_once", "C19.loads_only_on_demand", "C19.log_monotone", "C19.get_returns",
+    "C19.iter_returns", "C19.cumsum_spec", "C19.chain_len", "C19.chain_index", "C19.chain_index_neg", "C19.nest_index",
+]
 TRUSTED = ["hand-written models Model/Population.lean of _get_idx / LazyLoadingTrees / ChainTrees / NestTrees / Population construction "
            "(tied by the c19.lazy and c19.chain correspondence: returned file and read log compared exactly for every operation script)"]
 ASSUMPTIONS = ["os.walk order (file order is whatever find_swcs returns; the suites compare against that list)", "slice.indices (CPython)",
